@@ -96,6 +96,8 @@ def classify_consumers(F, ev, body, call_block, local, cons, roles, depth):
             continue  # drop-elaboration re-read of the discriminant, not a test
         if k in ("discr", "switch") and is_cleanup_region(body, c["block"]):
             continue  # drop ladder at the end of the function
+        if k == "discr" and feasible_variants(body, c["block"]) is not None:
+            continue  # re-test (drop elaboration) on an arm of an earlier test of the same value: covered by that test
         if k in ("discr", "switch"):
             ok, msg = check_match_absent(F, ev, body, c, local, roles)
             if not ok:
@@ -161,7 +163,8 @@ def check_match_absent(F, ev, body, c, local, roles):
     if not variants:
         return False, "no variant table"
     names = dict(variants)
-    fail_vals = [v for v, n in variants if n in ("Err", "None")]
+    feas = feasible_variants(body, bi)
+    fail_vals = [v for v, n in variants if n in ("Err", "None") and (feas is None or n in feas)]
     listed = dict((v, tg) for v, tg in tt["targets"])
     for v in fail_vals:
         ft = listed.get(v, tt["otherwise"])
